@@ -138,7 +138,11 @@ def make_container(spec, seed):
         mesh = fem.Mesh(mesh.points + np.array([0.0, 0.6]), mesh.cells, mesh.cell_type)
     if "@" in fk:  # the same model in another length unit (nanometre / micrometre sized parts given in metres)
         fk, unit = fk.split("@")
-        mesh = fem.Mesh(mesh.points * dict(nm=1e-9, um=1e-6, km=1e3)[unit], mesh.cells, mesh.cell_type)
+        if unit == "Fcells":  # a connectivity table held column-major (cells[:, [0, 1, 3, 2]]-style re-ordering, transposed stacks)
+            mesh = fem.Mesh(mesh.points, np.asfortranarray(mesh.cells), mesh.cell_type)
+            assert not mesh.cells.flags["C_CONTIGUOUS"] or mesh.cells.shape[0] == 1
+        else:
+            mesh = fem.Mesh(mesh.points * dict(nm=1e-9, um=1e-6, km=1e3)[unit], mesh.cells, mesh.cell_type)
     uniform = fk.endswith("+uniform")
     fk = fk.replace("+uniform", "")
     kw = dict(uniform=True) if uniform else {}
@@ -177,6 +181,8 @@ SPECS_QUICK = [
     ("hexahedron", "strip", "scalar"), ("tetra", "ref", "scalar"),
     # other length units (radii / coordinates far from one): nanometre-sized axisymmetric and plane parts, kilometre-sized 3D
     ("quad", "renum", "axi@nm"), ("quad", "renum", "axi-mixed3@nm"), ("quad", "renum", "axi@um"), ("quad", "renum", "planestrain@nm"), ("tetra", "ref", "vector@km"),
+    # connectivity tables in another memory layout
+    ("quad", "renum", "vector@Fcells"), ("quad", "renum", "mixed3@Fcells"), ("triangle", "renum", "vector@Fcells"),
 ]
 SPECS_MORE = [
     ("hexahedron", "strip", "mixed3"), ("hexahedron", "strip", "vector+uniform"), ("quad8", "ref", "vector"),
